@@ -6,6 +6,8 @@ import (
 
 	_ "verifharness/checks/c13"
 	_ "verifharness/checks/c14"
+	_ "verifharness/checks/c17"
+	_ "verifharness/checks/c28"
 )
 
 func main() { fw.Main() }
